@@ -123,7 +123,8 @@ def sampler_alphabet(env, tier):
         + [("input", k) for k in ("10", "01")] + [("source", k) for k in ("ideal", "dim", "ind")] \
         + [("src_inplace", "brightness", 1.0), ("src_inplace", "brightness", env.R2),
            ("backend", "permanent"), ("backend", "slos"), ("read",), ("draw",),
-           ("det", 1, True), ("det_inplace", "photon_counting", False), ("det_inplace", "efficiency", DET_EFF)]
+           ("det", 1, True), ("det_inplace", "photon_counting", False), ("det_inplace", "efficiency", DET_EFF),
+           ("edit", "nudge")]
     if tier == "thorough":
         a += [("det", DET_EFF, False), ("det_inplace", "p_dark", 0.05), ("input", "11"), ("src_inplace", "indistinguishability", 0.5), ("edit", "bs"), ("edit", "herald")]
     return a
@@ -143,6 +144,7 @@ def sampler_apply(s, w, op):
     elif k == "det_inplace": setattr(s.detector, op[1], op[2])
     elif k == "edit":
         if op[1] == "bs": s.circuit.bs(0, 1, reflectivity=0.21)
+        elif op[1] == "nudge": w.par.set(w.par.get() + 2e-6)       # a finite-difference sized parameter step
         else: s.circuit.herald(0, 0)
     else: raise KeyError(op)
 
